@@ -228,8 +228,17 @@ impl WriteSource for pr::ExprKind {
                 }
                 for param in &c.named_params {
                     r += opt.consume(&write_ident_part(&param.name))?;
+                    if let Some(ty) = &param.ty {
+                        let ty = ty.write_between("<", ">", opt.clone())?;
+                        r += opt.consume(&ty)?;
+                    }
                     r += opt.consume(":")?;
-                    r += opt.consume(&param.default_value.as_ref().unwrap().write(opt.clone())?)?;
+                    // the default is written like an argument of a call: anything that is not a single
+                    // term gets parentheses
+                    let mut opt_default = opt.clone();
+                    opt_default.unbound_expr = true;
+                    opt_default.context_strength = opt_default.context_strength.max(20);
+                    r += opt.consume(&param.default_value.as_ref().unwrap().write(opt_default)?)?;
                     r += opt.consume(" ")?;
                 }
                 r += opt.consume("-> ")?;
